@@ -19,12 +19,22 @@ THEOREMS = [
     'Ndn.C17.response_roundtrip', 'Ndn.C17.response_keys',
     'Ndn.C17.unchanged_register_raises_without_body', 'Ndn.C17.unchanged_unregister_ignores_status',
     'Ndn.C17.unchanged_routes_lost', 'Ndn.C17.gen_fields', 'Ndn.C17.gen_caught',
+    # bytes on the wire (model Ndn.NfdBytes = make_command_v2 / make_command / the v2 command Interest / parse_response)
+    'Ndn.C17.gen_schemas', 'Ndn.C17.command_names_prefix', 'Ndn.C17.rib_command_names_prefix',
+    'Ndn.C17.command_signed_v2', 'Ndn.C17.response_roundtrip_bytes', 'Ndn.C17.legacy_command_name',
 ]
 PARTIAL = {}
 TRUSTED = [
-    'C17: byte-level encoding/decoding of ControlParameters, ControlResponse, the command Interest and the reply '
-    'Data is the TLV codec (C01/C02/C08); the check decodes every emitted command with the library\'s own decoders '
-    'and verifies digest and signature itself (hashlib), the model sees (verb, prefix, signed timestamp) and reply kinds',
+    'C17: the registration state machine sees (verb, prefix, signed timestamp) and reply kinds; that the command it '
+    'emits for (verb, prefix) is the byte-level command of Ndn.NfdBytes (make_command_v2 + make_interest with the '
+    'DigestSha256 signer, resp. make_command) is tied per emitted command by the oracle, which decodes it with the '
+    'library\'s own decoders and verifies digest and signature itself (hashlib); the reply Data (not the Content) is '
+    'the packet codec (C01/C02)',
+    'C17: byte-level theorems are about the generic TLV codec and packet models of C08/C01/C02 instantiated with the '
+    'schemas generated from nfd_mgmt.py (gen_schemas); codec = tlv_model.py / ndn_format_0_3.py is sampled (there and '
+    'in the byte-level stream here); SHA-256 is a parameter H with 32-byte output (the driver runs the Lean SHA-256); '
+    'Name.from_str of the plain-text head /localhost|localhop/nfd/<module>/<command> is four generic components '
+    '(compared with the real name on every case); a Strategy body without a Name shows as absent in the model',
     'C17: asyncio.Semaphore(1) is modelled as a FIFO hand-over lock (CPython 3.12 semantics); awaiting and task '
     'scheduling are exercised only by the correspondence (virtual-time loop)',
     'C17: the clock enters the model as the advances between consecutive reads (monotone by construction); the '
@@ -38,14 +48,23 @@ RULE = ('scenarios on the virtual-time loop with the real NDNApp (v2 with the re
         'auto-registration), each command answered by ControlResponse (status 200/4xx/5xx/absent, with or without '
         'body, valid or broken DigestSha256), undecodable Content, Nack, or silence, after 0-3 ms; clock granularity '
         '1/4/16 ms and 0-2 ms ticks between the guard read, the signed read and the re-read; plus ControlResponse '
-        'values with random status/text/body fields for parse_response. non-trivial = at least two commands or a '
-        'non-200 reply; distinct = distinct cases')
+        'values with random status/text/body fields for parse_response; plus a byte-level stream: verb, local/non-local '
+        'face, prefix (text prefixes and random typed components, lengths around 253), 0-15 further ControlParameters '
+        'keywords (integers at width boundaries, non-ASCII text, strategy names; rarely an integer that does not fit), '
+        'Interest parameters, SignatureTime/SignatureNonce/timestamp/nonce at width boundaries (recorded from the real '
+        'calls), and a ControlResponse; compared component by component / byte by byte: make_command_v2, make_interest '
+        'with DigestSha256Signer(for_interest=True) (wire, final name, signer input, reported ranges, both checkers), '
+        'make_command, the response bytes and parse_response of them. non-trivial = at least two commands or a '
+        'non-200 reply (byte-level: a keyword besides name or a prefix of two components); distinct = distinct cases')
 
 PREFIXES = ['/a', '/a/b', '/app/x/y', '/8=%00%01/z', '/', '/' + 'k' * 260, '/r1', '/r2/s', '/r3']
 UINT_FIELDS = ['face_id', 'origin', 'cost', 'capacity', 'count', 'base_congestion_mark_interval',
                'default_congestion_threshold', 'mtu', 'flags', 'mask', 'expiration_period']
 TEXT_FIELDS = ['uri', 'local_uri']
 LIFETIME_MS = 1000
+CPV_FIELDS = ['name', 'face_id', 'uri', 'local_uri', 'origin', 'cost', 'capacity', 'count',
+              'base_congestion_mark_interval', 'default_congestion_threshold', 'mtu', 'flags', 'mask', 'strategy',
+              'expiration_period', 'face_persistency']      # = cpvFields of the model (checked by gen_fields)
 
 
 def _mods():
@@ -121,8 +140,62 @@ def _sm_case(rng, big):
             'clock': {'gran': gran, 'sign': sign, 'post': post}}
 
 
+def _by_fields(rng):
+    def nat():
+        return rng.choice([0, 1, 200, 252, 253, 255, 256, 65535, 65536, 2 ** 32 - 1, 2 ** 32, 2 ** 64 - 1,
+                           rng.randrange(2 ** 64)])
+
+    def text():
+        return ''.join(rng.choice('abcXYZ019:/._- \u00e9') for _ in range(rng.choice([0, 1, 3, 12, 40, 300])))
+    import pktcommon as PK
+    kw = {}
+    for f in UINT_FIELDS + TEXT_FIELDS + ['strategy', 'face_persistency']:
+        if rng.random() < 0.25:
+            if f == 'strategy':
+                kw[f] = ['n', [c.hex() for c in PK.rand_name(rng)[:4]]]
+            elif f in TEXT_FIELDS:
+                kw[f] = ['t', text()]
+            elif f == 'face_persistency':
+                kw[f] = ['u', rng.choice([0, 1, 2])]
+            else:
+                kw[f] = ['u', nat()]
+    return kw
+
+
+def _by_case(rng, tier):
+    """byte-level stream: one command (v2 name, v2 Interest, legacy name) and one response"""
+    import pktcommon as PK
+    from ndn import encoding as enc
+    if rng.random() < 0.5:
+        prefix = [bytes(c).hex() for c in enc.Name.normalize(rng.choice(PREFIXES))]
+    else:
+        n = PK.rand_name(rng)
+        if sum(len(c) for c in n) > 3000 and (tier == 'quick' or rng.random() < 0.7):
+            n = PK.boundary_name(rng, big=False)
+        prefix = [c.hex() for c in n]
+    kw = _by_fields(rng) if rng.random() < 0.6 else {}
+    if rng.random() < 0.04:
+        kw['cost'] = ['u', 2 ** 64 + rng.randrange(5)]          # does not fit a UintField
+    body = None
+    if rng.random() < 0.8:
+        body = _by_fields(rng)
+        if rng.random() < 0.8:
+            body['name'] = ['n', prefix]
+    return {'mode': 'by', 'verb': rng.choice(['r', 'r', 'u']), 'local': rng.choice([None, True, True, False]),
+            'prefix': prefix, 'kw': kw,
+            'param': {'can_be_prefix': rng.random() < 0.2, 'must_be_fresh': rng.random() < 0.3,
+                      'nonce': rng.choice([None, 0, rng.getrandbits(32)]),
+                      'lifetime': rng.choice([1000, 1000, 1000, None, 4000, 65536]),
+                      'hop_limit': rng.choice([None, None, 0, 255])},
+            'time': rng.choice([0, 1, 255, 256, 1700000000000, 2 ** 32, 2 ** 64 - 1, rng.randrange(2 ** 44)]),
+            'nonce64': rng.choice([0, 255, 65536, 2 ** 64 - 1, rng.getrandbits(64)]),
+            'resp': {'code': rng.choice([None, 200, 200, 403, 404, 0, 255, 256, 2 ** 32, 2 ** 64 - 1]),
+                     'text': rng.choice([None, 'OK', '', 'no such route \u00e9', 'x' * 300]), 'body': body}}
+
+
 def cases(rng, tier):
     n_sm, n_pr = (260, 200) if tier == 'quick' else (7000, 4000)
+    n_by = 160 if tier == 'quick' else 4000
     # a few fixed shapes first: the replies NFD really sends
     for fe in ('v2', 'v1'):
         for op in ('r', 'u'):
@@ -140,9 +213,34 @@ def cases(rng, tier):
         yield _sm_case(rng, tier != 'quick')
     for _ in range(n_pr):
         yield _pr_case(rng)
+    for _ in range(n_by):
+        yield _by_case(rng, tier)
 
 
 def shrink(case):
+    if case['mode'] == 'by':
+        for k in sorted(case['kw']):
+            kw = dict(case['kw'])
+            del kw[k]
+            yield dict(case, kw=kw)
+        if len(case['prefix']) > 1:
+            yield dict(case, prefix=case['prefix'][:1])
+            yield dict(case, prefix=case['prefix'][1:])
+        r = case['resp']
+        if r['body'] is not None:
+            for k in sorted(r['body']):
+                b = dict(r['body'])
+                del b[k]
+                yield dict(case, resp=dict(r, body=b))
+            yield dict(case, resp=dict(r, body=None))
+        if r['text'] not in (None, 'OK'):
+            yield dict(case, resp=dict(r, text='OK'))
+        if case['local'] is not None:
+            yield dict(case, local=None)
+        dflt = {'can_be_prefix': False, 'must_be_fresh': False, 'nonce': 1, 'lifetime': 1000, 'hop_limit': None}
+        if case['param'] != dflt:
+            yield dict(case, param=dflt)
+        return
     if case['mode'] == 'pr':
         if case['body']:
             for k in sorted(case['body']):
@@ -239,7 +337,7 @@ def _drive(coro):
     raise RuntimeError('checker awaited')
 
 
-def _decode_command(fe, wire, prefix_names):
+def _decode_command(fe, wire, prefix_names, local=True):
     """decode one emitted command Interest with the library's own decoders; returns
     {verb, pfx (index or None), ts, fmt (None or what is wrong with the format)}"""
     enc, utils, sec, types, nfd_mgmt, *_ = _mods()
@@ -253,7 +351,7 @@ def _decode_command(fe, wire, prefix_names):
         head = enc.Name.to_str(name[:3])
         verb = bytes(enc.Component.get_value(name[3])).decode()
         out['verb'] = {'register': 'r', 'unregister': 'u'}.get(verb)
-        if head != '/localhost/nfd/rib' or out['verb'] is None:
+        if head != ('/localhost/nfd/rib' if local else '/localhop/nfd/rib') or out['verb'] is None:
             out['fmt'] = 'not a rib register/unregister command name'
             return out, name
         cp = nfd_mgmt.ControlParameters.parse(enc.Component.get_value(name[4]))
@@ -377,9 +475,119 @@ def _run_pr(case):
     return {'mode': 'pr', 'dict': out}
 
 
+def _kw_py(kw):
+    out = {}
+    for k, v in kw.items():
+        out[k] = [bytes.fromhex(c) for c in v[1]] if v[0] == 'n' else v[1]
+    return out
+
+
+def _dict_obs(d):
+    out = []
+    for k, v in d.items():
+        if v is None:
+            c = '~'
+        elif hasattr(v, 'name') and k == 'strategy':
+            c = 'n' + '|'.join(bytes(x).hex() for x in v.name)
+        elif isinstance(v, list):
+            c = 'n' + '|'.join(bytes(x).hex() for x in v)
+        elif isinstance(v, str):
+            c = 't' + (v.encode().hex() or '-')
+        elif isinstance(v, (bytes, bytearray)):
+            c = 't' + (bytes(v).hex() or '-')
+        elif hasattr(v, 'value'):
+            c = 'u%d' % v.value
+        else:
+            c = 'u%d' % v
+        out.append([k, c])
+    return out
+
+
+def _run_by(case):
+    """make_command_v2 / make_interest with the DigestSha256 signer / make_command / parse_response on the real
+    library; SignatureTime, SignatureNonce, timestamp and nonce are what the real calls used (recorded)"""
+    import pktcommon as PK
+    enc, utils, sec, types, nfd_mgmt, nfd_registerer, sig_mod, ndnlp_v2 = _mods()
+    verb = {'r': 'register', 'u': 'unregister'}[case['verb']]
+    prefix = [bytes.fromhex(c) for c in case['prefix']]
+    kw = _kw_py(case['kw'])
+    face = None
+    if case['local'] is not None:
+        class _F:
+            def isLocalFace(self, v=case['local']):
+                return v
+        face = _F()
+    saved = []
+    for mod in (sig_mod, nfd_mgmt):
+        for attr, val in (('timestamp', case['time']), ('gen_nonce_64', case['nonce64'])):
+            if hasattr(mod, attr):
+                saved.append((mod, attr, getattr(mod, attr)))
+                setattr(mod, attr, (lambda v=val: v))
+    out = {'mode': 'by'}
+    try:
+        try:
+            name = nfd_mgmt.make_command_v2('rib', verb, face, name=prefix, **kw)
+            out['name'] = ['ok', [bytes(c).hex() for c in name]]
+        except Exception as e:    # noqa
+            out['name'] = ['err', PK.exc_name(e)]
+            name = None
+        if name is not None:
+            p = case['param']
+            rec = PK.Recorder(sec.DigestSha256Signer(for_interest=True))
+            try:
+                ip = enc.InterestParam(can_be_prefix=p['can_be_prefix'], must_be_fresh=p['must_be_fresh'],
+                                       nonce=p['nonce'], lifetime=p['lifetime'], hop_limit=p['hop_limit'])
+                wire, fn = enc.make_interest(name, ip, b'', signer=rec, need_final_name=True)
+                wire = bytes(wire)
+                si = rec.si
+                out['interest'] = {'made': ['ok', wire.hex()], 'final_name': [bytes(c).hex() for c in fn],
+                                   'covered': b''.join(rec.covered).hex(),
+                                   'si': [si.signature_type, si.key_locator is None, si.signature_nonce,
+                                          si.signature_time, si.signature_seq_num],
+                                   'parsed': PK.parse_packet('interest', wire)}
+                try:
+                    iname, _ip, _ap, sp = enc.parse_interest(wire)
+                    out['interest']['checkers'] = [bool(_drive(sec.params_sha256_checker(iname, sp))),
+                                                   bool(_drive(sec.sha256_digest_checker(iname, sp)))]
+                    out['interest']['decoded'] = _decode_command('v2', wire, [bytes(enc.Name.to_bytes(prefix))], case['local'] is not False)[0]
+                except Exception as e:    # noqa
+                    out['interest']['checkers'] = ['err', PK.exc_name(e)]
+            except Exception as e:    # noqa
+                out['interest'] = {'made': ['err', PK.exc_name(e)]}
+            try:
+                ln = nfd_mgmt.make_command('rib', verb, face, name=prefix, **kw)
+                comps = [bytes(c) for c in ln]
+                out['legacy'] = ['ok', [c.hex() for c in comps]]
+                if len(comps) == 9:
+                    tsb, nb = bytes(enc.Component.get_value(comps[5])), bytes(enc.Component.get_value(comps[6]))
+                    if len(tsb) == 8 and len(nb) == 8:
+                        out['legacy_ts'] = [struct.unpack('!Q', tsb)[0], struct.unpack('!Q', nb)[0]]
+                    lw = bytes(enc.make_interest(ln, enc.InterestParam(lifetime=LIFETIME_MS)))
+                    out['legacy_decoded'] = _decode_command('v1', lw, [bytes(enc.Name.to_bytes(prefix))], case['local'] is not False)[0]
+            except Exception as e:    # noqa
+                out['legacy'] = ['err', PK.exc_name(e)]
+    finally:
+        for mod, attr, val in saved:
+            setattr(mod, attr, val)
+    r = case['resp']
+    body = None if r['body'] is None else _kw_py(r['body'])
+    try:
+        rw = _make_response(nfd_mgmt, enc, r['code'], r['text'], body)
+        out['resp_wire'] = ['ok', rw.hex()]
+        try:
+            out['resp_dict'] = ['ok', _dict_obs(nfd_mgmt.parse_response(rw))]
+        except Exception as e:    # noqa
+            out['resp_dict'] = ['err', PK.exc_name(e)]
+    except Exception as e:    # noqa
+        out['resp_wire'] = ['err', PK.exc_name(e)]
+    return out
+
+
 def run_impl(case):
     if case['mode'] == 'pr':
         return _run_pr(case)
+    if case['mode'] == 'by':
+        return _run_by(case)
     enc, utils, sec, types, nfd_mgmt, nfd_registerer, sig_mod, ndnlp_v2 = _mods()
     import apphelp
     fe = case['fe']
@@ -654,7 +862,53 @@ def _nl(l):
     return ','.join(str(x) for x in l) if l else '.'
 
 
+def _cpv_text(fields):
+    """the sixteen ControlParametersValue values in the text format of the codec driver"""
+    import tlvschema as T
+    vals = []
+    for k in CPV_FIELDS:
+        v = fields.get(k)
+        if v is None:
+            vals.append(None)
+        elif v[0] == 'u':
+            vals.append(('u', v[1]))
+        elif v[0] == 't':
+            vals.append(('y', v[1].encode()))
+        elif k == 'strategy':
+            vals.append(('m', [('n', [bytes.fromhex(c) for c in v[1]])]))
+        else:
+            vals.append(('n', [bytes.fromhex(c) for c in v[1]]))
+    return T.values_text(vals)
+
+
+def _by_line(case, impl):
+    import tlvschema as T
+    loc = 'h' if case['local'] is False else 'l'
+    verb = {'r': b'register', 'u': b'unregister'}[case['verb']].hex()
+    cpv = _cpv_text(dict(case['kw'], name=['n', case['prefix']]))
+    qs = [f'cn {loc} {b"rib".hex()} {verb} {cpv}']
+    if impl['name'][0] == 'ok':
+        p = case['param']
+        mid = [('b',) if p['can_be_prefix'] else None, ('b',) if p['must_be_fresh'] else None, None,
+               None if p['nonce'] is None else ('u', p['nonce']), None if p['lifetime'] is None else ('u', p['lifetime']),
+               None if p['hop_limit'] is None else ('u', p['hop_limit'])]
+        si = impl.get('interest', {}).get('si')
+        t, n = (si[3], si[2]) if si and si[2] is not None and si[3] is not None else (case['time'], case['nonce64'])
+        qs.append(f"ci {','.join(impl['name'][1])} {T.values_text(mid)} {t} {n}")
+        ts, nn = impl.get('legacy_ts', [case['time'], case['nonce64']])
+        qs.append(f'lc {loc} {b"rib".hex()} {verb} {cpv} {ts} {nn}')
+    r = case['resp']
+    code = '~' if r['code'] is None else str(r['code'])
+    text = '~' if r['text'] is None else (r['text'].encode().hex() or '-')
+    qs.append(f"pre {code} {text} {'~' if r['body'] is None else _cpv_text(r['body'])}")
+    if impl['resp_wire'][0] == 'ok':
+        qs.append(f"prb {impl['resp_wire'][1]}")
+    return 'C17 ' + ' ;; '.join(qs)
+
+
 def model_line(case, impl):
+    if case['mode'] == 'by':
+        return _by_line(case, impl)
     if case['mode'] == 'pr':
         if 'encode_error' in impl:
             return None
@@ -690,7 +944,70 @@ def model_line(case, impl):
     return f"C17 sm {fe} {impl['t0']} {_nl(st[0])} {_nl(st[1])} {_nl(st[2])} {_nl(st[3])} {';'.join(toks) or '.'}"
 
 
+def _hexlist(x):
+    return [] if x == '.' else ['' if c == '-' else c for c in x.split(',')]
+
+
+def _by_model_obs(answer, case, impl):
+    parts = answer.split(' ;; ')
+    it = iter(parts)
+
+    def name_res(a):
+        if a.startswith('err '):
+            return ['err', a[4:]]
+        assert a.startswith('ok '), a
+        return ['ok', _hexlist(a[3:])]
+    out = {'name': name_res(next(it))}
+    if impl['name'][0] == 'ok':
+        a = next(it)
+        if a.startswith('err '):
+            out['interest'] = {'made': ['err', a[4:]]}
+        else:
+            left, right = a.split(' | ')
+            d = dict(t.split('=', 1) for t in left.split()[1:])
+            io = {'made': ['ok', '' if d['W'] == '-' else d['W']], 'final_name': _hexlist(d['N']),
+                  'covered': '' if d['C'] == '-' else d['C']}
+            rt = right.split()
+            if rt[0] == 'ok':
+                e = dict(t.split('=', 1) for t in rt[1:])
+                io.update({'SC': _hexlist(e['SC']), 'SV': None if e['SV'] == '~' else e['SV'], 'DC': _hexlist(e['DC']),
+                           'DV': None if e['DV'] == '~' else e['DV'], 'checkers': [e['PC'] == '1', e['VS'] == '1']})
+            else:
+                io['parse_err'] = rt[1]
+            out['interest'] = io
+        out['legacy'] = name_res(next(it))
+    a = next(it)
+    out['resp_wire'] = ['err', a[4:]] if a.startswith('err ') else ['ok', a[3:]]
+    if impl['resp_wire'][0] == 'ok':
+        a = next(it)
+        out['resp_dict'] = ['err', a[4:]] if a.startswith('err ') else ['ok', [kv.split('=') for kv in a[3:].split(',')]]
+    return out
+
+
+def _by_impl_obs(impl):
+    out = {'name': impl['name']}
+    if impl['name'][0] == 'ok':
+        i = impl['interest']
+        if i['made'][0] == 'err':
+            out['interest'] = {'made': i['made']}
+        else:
+            io = {'made': i['made'], 'final_name': i['final_name'], 'covered': i['covered']}
+            p = i['parsed']
+            if p['res'] == 'ok':
+                io.update({'SC': p['SC'], 'SV': p['SV'], 'DC': p['DC'], 'DV': p['DV'], 'checkers': i.get('checkers')})
+            else:
+                io['parse_err'] = p['err']
+            out['interest'] = io
+        out['legacy'] = impl['legacy']
+    out['resp_wire'] = impl['resp_wire']
+    if impl['resp_wire'][0] == 'ok':
+        out['resp_dict'] = impl['resp_dict']
+    return out
+
+
 def model_obs(answer, case, impl):
+    if case['mode'] == 'by':
+        return _by_model_obs(answer, case, impl)
     if case['mode'] == 'pr':
         if answer.startswith('err '):
             return {'raised': answer[4:]}
@@ -715,6 +1032,8 @@ def model_obs(answer, case, impl):
 
 
 def impl_obs(impl):
+    if impl['mode'] == 'by':
+        return _by_impl_obs(impl)
     if impl['mode'] == 'pr':
         if 'raised' in impl:
             return {'raised': impl['raised']}
@@ -744,6 +1063,60 @@ def _kind_text(kind):
     return {'n': 'Nack', 't': 'timeout', 'x': 'shutdown', 'g': 'undecodable response'}[kind[0]]
 
 
+def _resp_oracle(code, text, body, pairs):
+    """decoding a management response returns the fields that were encoded"""
+    from ndn import encoding as enc
+    d = dict((k, v) for k, v in pairs)
+    exp = {'status_code': '~' if code is None else 'u%d' % code,
+           'status_text': '~' if text is None else 't' + (text.encode().hex() or '-')}
+    for k, v in (body or {}).items():
+        if v[0] == 'u':
+            exp[k] = 'u%d' % v[1]
+        elif v[0] == 't':
+            exp[k] = 't' + (v[1].encode().hex() or '-')
+        elif isinstance(v[1], list):
+            exp[k] = 'n' + '|'.join(v[1])
+        else:
+            exp[k] = 'n' + '|'.join(bytes(c).hex() for c in enc.Name.normalize(v[1]))
+    for k, v in exp.items():
+        if d.get(k) != v:
+            return f'decoded field {k} = {d.get(k)} but {v} was encoded'
+    for k, v in d.items():
+        if k not in exp and v != '~':
+            return f'decoded field {k} = {v} was never encoded'
+    return None
+
+
+def _by_oracle(case, impl):
+    """one command of each format built for (verb, prefix): names the prefix, correctly signed; and one response"""
+    fits = all(v[0] != 'u' or v[1] < 2 ** 64 for v in case['kw'].values())
+    if impl['name'][0] == 'err':
+        if fits:
+            return f"building the command name raised {impl['name'][1]}"
+    else:
+        i = impl['interest']
+        if i['made'][0] == 'err':
+            return f"signing the command Interest raised {i['made'][1]}"
+        for what, d in (('v2', i.get('decoded')), ('legacy', impl.get('legacy_decoded'))):
+            if d is None:
+                return f'{what} command could not be built or decoded: {impl.get("legacy") if what == "legacy" else i.get("checkers")}'
+            if d['fmt']:
+                return f'{what} command: {d["fmt"]}'
+            if d['verb'] != case['verb']:
+                return f'{what} command carries verb {d["verb"]}, requested {case["verb"]}'
+            if d['pfx'] != 0:
+                return f'{what} command: control parameters do not name the requested prefix'
+        if i.get('checkers') != [True, True]:
+            return f'the library\'s own digest/signature checkers do not accept the v2 command: {i.get("checkers")}'
+    r = case['resp']
+    if impl['resp_wire'][0] == 'ok':
+        if impl['resp_dict'][0] == 'err':
+            return (f"decoding a management response {'without body ' if r['body'] is None else ''}"
+                    f"raised {impl['resp_dict'][1]}")
+        return _resp_oracle(r['code'], r['text'], r['body'], impl['resp_dict'][1])
+    return None
+
+
 def oracle(case, impl):
     """the property statement, evaluated on the implementation's observable behaviour only"""
     if case['mode'] == 'pr':
@@ -751,24 +1124,9 @@ def oracle(case, impl):
             return None
         if 'raised' in impl:
             return f"decoding a management response {'without body ' if case['body'] is None else ''}raised {impl['raised']}"
-        from ndn import encoding as enc
-        d = dict((k, v) for k, v in impl['dict'])
-        exp = {'status_code': '~' if case['code'] is None else 'u%d' % case['code'],
-               'status_text': '~' if case['text'] is None else 't' + (case['text'].encode().hex() or '-')}
-        for k, v in (case['body'] or {}).items():
-            if v[0] == 'u':
-                exp[k] = 'u%d' % v[1]
-            elif v[0] == 't':
-                exp[k] = 't' + (v[1].encode().hex() or '-')
-            else:
-                exp[k] = 'n' + '|'.join(bytes(c).hex() for c in enc.Name.normalize(v[1]))
-        for k, v in exp.items():
-            if d.get(k) != v:
-                return f'decoded field {k} = {d.get(k)} but {v} was encoded'
-        for k, v in d.items():
-            if k not in exp and v != '~':
-                return f'decoded field {k} = {v} was never encoded'
-        return None
+        return _resp_oracle(case['code'], case['text'], case['body'], impl['dict'])
+    if case['mode'] == 'by':
+        return _by_oracle(case, impl)
     fe = case['fe']
     cmds, log = impl['cmds'], impl['log']
     calls = {e[1]: e for e in log if e[0] == 'call'}
@@ -831,6 +1189,8 @@ def oracle(case, impl):
 
 
 def nontrivial(case, impl):
+    if case['mode'] == 'by':
+        return bool(case['kw']) or len(case['prefix']) >= 2
     if case['mode'] == 'pr':
         return bool(case['body'])
     return len(impl['cmds']) >= 2 or any(c.get('reply') and not (c['reply'][0] == 's' and c['reply'][1] == 200)
@@ -838,6 +1198,13 @@ def nontrivial(case, impl):
 
 
 def tags(case, impl):
+    if case['mode'] == 'by':
+        t = ['by', 'by-kw:%d' % len(case['kw']), 'by-local:%s' % case['local'], 'by-comps:%d' % min(len(case['prefix']), 5),
+             'by-name-' + impl['name'][0], 'by-resp-' + impl['resp_wire'][0],
+             'by-resp-body-absent' if case['resp']['body'] is None else 'by-resp-fields:%d' % len(case['resp']['body'])]
+        if sum(len(c) for c in case['prefix']) // 2 >= 200:
+            t.append('by-long-prefix')
+        return t
     if case['mode'] == 'pr':
         return ['pr', 'pr-body-absent' if case['body'] is None else 'pr-fields:%d' % len(case['body'])]
     t = ['sm-' + case['fe'], 'cmds:%d' % min(len(impl['cmds']), 9), 'gran:%d' % case['clock']['gran']]
@@ -864,6 +1231,10 @@ def tags(case, impl):
 
 def finding_key(case, impl, why):
     import re
+    if case['mode'] == 'by':
+        if 'raised' in why and 'response without body' in why:
+            return 'parse-response-raises-without-body'
+        return 'bytes-' + re.sub(r'[^a-zA-Z]+', '-', re.sub(r'=.*|\[.*', '', why)).strip('-').lower()[:60]
     if case['mode'] == 'pr':
         if 'raised' in why and case['body'] is None:
             return 'parse-response-raises-without-body'
@@ -914,13 +1285,23 @@ def extract(repo):
             ('NfdRegister.unregister', caught('transport/nfd_registerer.py', 'NfdRegister', 'unregister')),
             ('app.register', caught('app.py', 'NDNApp', 'register')),
             ('app.unregister', caught('app.py', 'NDNApp', 'unregister'))]
-    return ('/-! GENERATED by harness/props/c17.py extract() from ndn/app_support/nfd_mgmt.py (live classes) and the\n'
+    import tlvschema as T
+    from props.c08 import _lean_schema
+
+    def live(cls):
+        return '[' + ', '.join(_lean_schema(x) for x in T.class_schema(cls)) + ']'
+    return ('import NdnModel.CodecWF\n'
+            '/-! GENERATED by harness/props/c17.py extract() from ndn/app_support/nfd_mgmt.py (live classes) and the\n'
             '    except clauses of the registration functions (ast).  Do not edit. -/\n'
-            'namespace Ndn.Gen.C17\n\n'
+            'namespace Ndn.Gen.C17\nopen Ndn.Codec\n\n'
             f'def controlParametersValueFields : List String :=\n  {sl(names(nfd_mgmt.ControlParametersValue))}\n\n'
             f'def controlResponseFields : List String :=\n  {sl(names(nfd_mgmt.ControlResponse))}\n\n'
             'def caught : List (String × List String) :=\n  [' +
             ',\n   '.join(f'("{n}", {sl(c)})' for n, c in rows) + ']\n\n'
+            '/-- `_encoded_fields` of the live model classes, as schemas of the generic TLV codec -/\n'
+            f'def controlParametersValueLive : List Schema :=\n  {live(nfd_mgmt.ControlParametersValue)}\n\n'
+            f'def controlParametersLive : List Schema :=\n  {live(nfd_mgmt.ControlParameters)}\n\n'
+            f'def controlResponseLive : List Schema :=\n  {live(nfd_mgmt.ControlResponse)}\n\n'
             'end Ndn.Gen.C17\n')
 
 
@@ -930,11 +1311,19 @@ LEVEL_TEXT = ('Lean 4 theorems over a hand-written model of NfdRegister.register
               'history and every clock: success iff status 200, failures never raise, one command in flight, strictly '
               'increasing signed timestamps under the clock hypothesis, routes registered once per connection, '
               'parse_response returns the decoded fields; the defects of the unchanged tree are theorems about the '
-              'unrepaired configurations. The model is tied to the code on every run by differential execution against '
+              'unrepaired configurations. Byte level (composed from the C08 round trip and the C01/C02 packet theorems '
+              'over the schemas generated from nfd_mgmt.py), for every prefix, field values, Interest parameters, '
+              'SignatureTime/Nonce and every 32-byte hash H: the ControlParameters component of the make_command_v2 name '
+              'decodes to exactly the requested prefix and fields; the v2 command Interest is made, parses back to the '
+              'command name + ParametersSha256Digest, and passes the parameters-digest and DigestSha256 checks on the '
+              'ranges the parser reports; the legacy make_command name is the v2 name + timestamp + nonce + SignatureInfo '
+              '+ SignatureValue = H(preceding components); parse_response of the encoded ControlResponse returns the '
+              'encoded fields and agrees with the record-level model. The model is tied to the code on every run by differential execution against '
               'the real NDNApp/NfdRegister on a virtual-time loop with a scripted forwarder, and by the oracle which '
               'decodes every emitted command Interest and checks names, digest and signature.')
 LEVEL_NOTE = ('Proof is about the model; model=code is sampled (differential testing), not proved. Command/response bytes '
-              'are delegated to the library codec (C01/C02/C08) and checked on the wire by the oracle. The unserialised '
+              'are proved for the byte-level model (generic codec + packet model, hash as a parameter); that the state '
+              'machine emits exactly that command per call is checked on the wire by the oracle. The unserialised '
               'legacy unregister of the unchanged tree is outside the model (replay only).')
 TECHNIQUE = 'Lean 4 proof (invariants over event histories, refinement of a FIFO lock) + model/implementation correspondence check'
 DESIGN_REF = 'DESIGN.md section 7, C17; finding F13'
